@@ -557,6 +557,21 @@ def jump_fanin_off_body(times: int = 1) -> dict:
     }
 
 
+def jump_from_sibling(times: int = 1) -> dict:
+    """r -> a -> j ; r -> x[jump to r]: the jump issued on a sibling branch re-arms r, a, j and x,
+    possibly while j is being started."""
+    return {
+        "name": f"jumpsibling{times}",
+        "confluent": False,
+        "stages": [
+            st("r"),
+            st("a", ["r"], [dict(OK, out=["a_o"])]),
+            st("j", ["a"], [dict(OK, out=["j_o"])]),
+            st("x", ["r"], [{"kind": "jump", "to": "r", "times": times, "out": ["x_o"]}]),
+        ],
+    }
+
+
 def restart_forward_jump() -> dict:
     """a -> b -> c -> d all succeed; only when `a` is run again (operator restart) does it
     jump forward to c, over the already completed b."""
